@@ -24,7 +24,9 @@ Pipeline(kind) == CASE kind = "message" -> MsgLayers [] kind = "key" -> KeyLayer
 BehindCrypto == {"session_plaintext", "edata_stream", "inner_packets", "compressed", "literal", "protected_material", "secret_values"}
 
 (* wrappers the attacker can build: who unwraps the session key, and which container holds the data *)
-Carriers == {"pkesk_rsa", "pkesk_ecdh_cv25519", "pkesk_ecdh_p256", "pkesk_ecdh_p384", "pkesk_ecdh_p521", "pkesk_x25519", "pkesk_x448", "skesk_v4", "skesk_v6", "skesk_v5", "session_key_given"}
+Carriers == {"pkesk_rsa", "pkesk_ecdh_cv25519", "pkesk_ecdh_p256", "pkesk_ecdh_p384", "pkesk_ecdh_p521", "pkesk_x25519", "pkesk_x448", "skesk_v4", "skesk_v6", "skesk_v5", "session_key_given",
+             \* version 6 PKESKs (recipient named by fingerprint, no algorithm octet inside the encrypted value): only in front of SEIPDv2
+             "pkesk6_rsa", "pkesk6_ecdh_p256"}
 Containers == {"seipd_v1", "seipd_v2", "gnupg_aead", "sed"}
 KeyProtections == {"usage253", "usage254", "usage255", "legacy"}
 
@@ -40,6 +42,7 @@ Feasible(f) ==
   /\ (f.kind = "message" /\ f.carrier = "skesk_v5") => f.container = "gnupg_aead"
   /\ (f.kind = "message" /\ f.container = "gnupg_aead") => f.carrier \in {"skesk_v5", "skesk_v4", "session_key_given", "pkesk_rsa", "pkesk_x25519"}
   /\ (f.kind = "message" /\ f.container = "seipd_v2") => f.carrier \notin {"skesk_v5"}
+  /\ (f.kind = "message" /\ f.carrier \in {"pkesk6_rsa", "pkesk6_ecdh_p256"}) => f.container = "seipd_v2"
   /\ (f.kind = "message" /\ f.container = "sed") => f.carrier \in {"skesk_v4", "session_key_given", "pkesk_rsa"}
 
 VARIABLES fam, pos, hostile, outcome
